@@ -187,8 +187,15 @@ def translate_extend_path(fn):
     body = strip_docstring(fn.body)
     modes = {}
     k = 0
+    # `other = <parameter>`: another name for the parent
+    while (k < len(body) and isinstance(body[k], ast.Assign) and len(body[k].targets) == 1
+           and isinstance(body[k].targets[0], ast.Name) and isinstance(body[k].value, ast.Name)
+           and body[k].value.id == parent and body[k].targets[0].id != "self"):
+        parent = body[k].targets[0].id
+        k += 1
+    param = args[1]
     while k < len(body):
-        fa = field_assign(body[k], "self", parent)
+        fa = field_assign(body[k], "self", parent) or field_assign(body[k], "self", param)
         if fa is None:
             break
         f, mode = fa
@@ -203,6 +210,8 @@ def translate_extend_path(fn):
         raise TranslateError(f"Path.extend_path: the new path does not receive {missing} before the solver is filled")
     want = ast.unparse(ast.parse(EXTEND_SOLVER_PART.replace("PARENT", parent)))
     got = "\n".join(ast.unparse(s) for s in body[k:])
+    if got != want and parent != param:
+        got = got.replace(f"{param}.sliced", f"{parent}.sliced")
     if got != want:
         raise TranslateError("Path.extend_path: the part that fills the solver is not the modelled one "
                              "(all conditions of an unsliced parent, the sliced ones otherwise): " + got[:300])
